@@ -1,19 +1,19 @@
 SPECIFICATION Spec
 CONSTANTS
   T = {1}
-  StartKinds = {"dq", "di", "df", "uq"}
+  StartKinds = {"dq"}
   MaxTasks = 4
-  MaxCycles = 3
-  MaxOps = 2
-  MaxEnv = 4
+  MaxCycles = 2
+  MaxOps = 1
+  MaxEnv = 3
   MaxRequeue = 1
-  MaxOffers = 1
+  MaxOffers = 2
   SkipOccupied = TRUE
   CallbackOwnOnly = TRUE
   RemoveCancels = TRUE
   CycleSkipsLocked = TRUE
   OfferSkipsLocked = TRUE
-  OfferSkipsOccupied = TRUE
+  OfferSkipsOccupied = FALSE
 INVARIANT TypeOK
 INVARIANT AtMostOneNegotiation
 INVARIANT SlotsTrackLive
